@@ -49,6 +49,28 @@ func minimalInt(v *big.Int) []byte {
 	return b
 }
 
+// derTruncFix: every proper prefix of a valid encoding with the SEQUENCE length byte rewritten to match
+// (and, for a second variant, the length byte of the integer the cut falls into rewritten too): inputs on
+// which a parser that indexes before its length checks walks off the end
+func derTruncFix(base []byte) [][]byte {
+	var out [][]byte
+	rl := int(base[3])
+	for c := 2; c < len(base); c++ {
+		m := append([]byte{}, base[:c]...)
+		m[1] = byte(c - 2)
+		out = append(out, m)
+		m2 := append([]byte{}, m...)
+		if c > 4 && c <= 4+rl { // cut inside R
+			m2[3] = byte(c - 4)
+			out = append(out, m2)
+		} else if c > 6+rl { // cut inside S
+			m2[5+rl] = byte(c - 6 - rl)
+			out = append(out, m2)
+		}
+	}
+	return out
+}
+
 func genC09(h *H) {
 	// 1. boundary r,s pairs, canonical encodings
 	bs := h.boundaryInts()
@@ -115,6 +137,9 @@ func genC09(h *H) {
 				m[p] = byte(v)
 				h.do("mut-length", "der_parse", hx(m))
 			}
+		}
+		for _, m := range derTruncFix(base) {
+			h.do("mut-trunc-fix", "der_parse", hx(m))
 		}
 		// appended / truncated
 		for k := 1; k <= 3; k++ {
